@@ -149,21 +149,59 @@ class Result:
         self.sub = sub          # variable -> 0/1 substitution taken on this path
 
 
+def _copyval(v):
+    if isinstance(v, list):
+        return [_copyval(x) for x in v]
+    if isinstance(v, tuple) and v and v[0] in ("array", "tuple", "variant") and isinstance(v[-1], list):
+        return v[:-1] + ([_copyval(x) for x in v[-1]],)
+    return v
+
+
+def _copyenv(env):
+    return {k: _copyval(v) for k, v in env.items()}
+
+
+class St:
+    """path state"""
+    __slots__ = ("atoms", "out", "nread", "sub", "steps")
+
+    def __init__(self, atoms=None, out=None, nread=0, sub=None, steps=0):
+        self.atoms = atoms or []
+        self.out = out or []
+        self.nread = nread
+        self.sub = sub or {}
+        self.steps = steps
+
+    def fork(self):
+        return St(list(self.atoms), list(self.out), self.nread, dict(self.sub), self.steps)
+
+
+def _parse_len(n):
+    import re
+    m = re.match(r"^(\d+)", str(n))
+    return int(m.group(1)) if m else None
+
+
 class Interp:
-    def __init__(self, body, args, reader_bytes=None, sub=None):
+    """Interpreter for loop-bounded shift/mask code: symbolic in the value bits, concrete in lengths / indices / loop
+    counters.  Local private helpers are interpreted too (crate given).  Forks happen only on `all these bits are zero`."""
+
+    def __init__(self, body, args, reader_bytes=None, sub=None, crate=None):
         self.b = body
         self.args = args
         self.reader_bytes = reader_bytes
-        self.results = []
         self.init_sub = dict(sub or {})
+        self.crate = crate
 
     def run(self):
-        env = dict(self.args)
-        self._explore(0, env, [], [], 0, dict(self.init_sub), 0)
-        return self.results
+        env = {k: v for k, v in self.args.items() if isinstance(k, int)}
+        res = []
+        for ret, st in self._explore(self.b, 0, env, St(sub=dict(self.init_sub)), 0):
+            res.append(Result(st.atoms, st.out, ret, st.nread, st.sub))
+        return res
 
     # --------------------------------------------------------------------------------------------
-    def operand(self, env, o):
+    def operand(self, body, env, o):
         if "const" in o:
             c = o["const"]
             ty = c["ty"].get("n") or c["ty"]["k"]
@@ -171,53 +209,104 @@ class Interp:
                 return ("opaque", c["s"])
             v = int(c["val"])
             return BV.const(v & ((1 << WIDTH[ty]) - 1), ty)
-        return self.read(env, mir.op_place(o))
+        return self.read(body, env, mir.op_place(o))
 
-    def read(self, env, p):
+    def _deref(self, env, cur):
+        if isinstance(cur, tuple) and cur[0] == "ref":
+            return env.get(cur[1], ("unk", cur[1])) if isinstance(cur[1], int) else cur[1]
+        return ("proj", cur, "deref")
+
+    def read(self, body, env, p):
         cur = env.get(p["local"], ("unk", p["local"]))
         for pr in p["proj"]:
             k = pr["p"]
-            if k == "field" and isinstance(cur, tuple) and cur[0] == "tuple":
-                cur = cur[1][pr["i"]]
-            elif k == "field" and isinstance(cur, tuple) and cur[0] == "variant":
-                cur = cur[2][pr["i"]]
+            if k == "field" and isinstance(cur, tuple) and cur[0] in ("tuple", "variant"):
+                cur = cur[-1][pr["i"]]
             elif k == "downcast":
                 pass
-            elif k == "deref" and isinstance(cur, tuple) and cur[0] == "ref":
-                cur = env.get(cur[1], ("unk", cur[1])) if isinstance(cur[1], int) else cur[1]
+            elif k == "deref":
+                cur = self._deref(env, cur)
+            elif k in ("index", "constindex"):
+                if k == "index":
+                    iv = env.get(pr["local"])
+                    idx = iv.value() if isinstance(iv, BV) and iv.is_const() else None
+                else:
+                    idx = pr["offset"] if not pr.get("from_end") else None
+                items = cur[-1] if isinstance(cur, tuple) and cur[0] in ("array", "slice") else None
+                if idx is None or items is None or idx >= len(items):
+                    raise Unsupported("indexing with a non-constant or out-of-range index")
+                cur = items[idx]
             else:
                 cur = ("proj", cur, k)
         return cur
 
-    def rvalue(self, env, rv, sub):
+    def write(self, body, env, p, val):
+        if not p["proj"]:
+            env[p["local"]] = val
+            return
+        # resolve the container to mutate
+        base_local = p["local"]
+        cur = env.get(base_local)
+        projs = list(p["proj"])
+        # follow leading derefs of references to locals
+        while projs and projs[0]["p"] == "deref" and isinstance(cur, tuple) and cur[0] == "ref" and isinstance(cur[1], int):
+            base_local = cur[1]
+            cur = env.get(base_local)
+            projs = projs[1:]
+        if not projs:
+            env[base_local] = val
+            return
+        if len(projs) == 1 and projs[0]["p"] in ("index", "constindex") and isinstance(cur, tuple) and cur[0] == "array":
+            pr = projs[0]
+            if pr["p"] == "index":
+                iv = env.get(pr["local"])
+                idx = iv.value() if isinstance(iv, BV) and iv.is_const() else None
+            else:
+                idx = pr["offset"]
+            if idx is None or idx >= len(cur[1]):
+                raise Unsupported("array store with a non-constant or out-of-range index")
+            cur[1][idx] = val
+            return
+        if len(projs) == 1 and projs[0]["p"] == "field" and isinstance(cur, tuple) and cur[0] in ("tuple", "variant"):
+            cur[-1][projs[0]["i"]] = val
+            return
+        # other projected stores (e.g. into `self`) are irrelevant for the value flow
+        return
+
+    def rvalue(self, body, env, rv, st):
         k = rv["rv"]
         if k == "use":
-            return self.operand(env, rv["x"])
-        if k == "ref":
+            return _copyval(self.operand(body, env, rv["x"]))
+        if k in ("ref", "rawptr"):
             p = rv["place"]
             if not p["proj"]:
                 return ("ref", p["local"])
             if len(p["proj"]) == 1 and p["proj"][0]["p"] == "deref":
                 base = env.get(p["local"])
-                if isinstance(base, tuple) and base[0] == "ref" and isinstance(base[1], int):
-                    return base             # reborrow `&mut *r` keeps pointing at the same local
-            return ("ref", self.read(env, p))
+                if isinstance(base, tuple) and base[0] == "ref":
+                    return base             # reborrow
+            return ("ref", self.read(body, env, p))
         if k == "cast":
-            x = self.operand(env, rv["x"])
-            if "PointerCoercion" in rv["kind"]:
+            x = self.operand(body, env, rv["x"])
+            if "PointerCoercion" in rv["kind"] or rv["kind"] in ("PtrToPtr", "Transmute"):
                 return x
             to = rv["to"].get("n") or rv["to"].get("k")
             if isinstance(x, BV) and to in WIDTH and rv["kind"] == "IntToInt":
                 return cast(x, to)
             return ("opaque", "cast " + rv["kind"])
         if k == "bin":
-            l, r = self.operand(env, rv["l"]), self.operand(env, rv["r"])
+            l, r = self.operand(body, env, rv["l"]), self.operand(body, env, rv["r"])
             op = rv["op"]
             if op.endswith("WithOverflow"):
                 return ("tuple", [self._bin(op[:-12], l, r), BV.const(0, "bool")])
             return self._bin(op, l, r)
         if k == "un":
-            x = self.operand(env, rv["x"])
+            x = self.operand(body, env, rv["x"])
+            if rv["op"] == "PtrMetadata":
+                v = self._deref(env, x) if isinstance(x, tuple) and x[0] == "ref" else x
+                if isinstance(v, tuple) and v[0] in ("array", "slice"):
+                    return BV.const(len(v[-1]), "usize")
+                return ("opaque", "len")
             if rv["op"] == "Neg" and isinstance(x, BV):
                 return neg(x)
             if rv["op"] == "Not" and isinstance(x, BV):
@@ -226,15 +315,21 @@ class Interp:
                 return ("iszero", x[1], not x[2])
             return ("opaque", rv["op"])
         if k == "agg":
-            fs = [self.operand(env, f) for f in rv["fields"]]
+            fs = [_copyval(self.operand(body, env, f)) for f in rv["fields"]]
             if rv["kind"] == "array":
                 return ("array", fs)
             if rv["kind"] == "tuple":
                 return ("tuple", fs)
             if rv["kind"] == "adt":
                 return ("variant", rv["variant"], fs)
+        if k == "repeat":
+            n = _parse_len(rv["n"])
+            x = self.operand(body, env, rv["x"])
+            if n is None or n > 64:
+                raise Unsupported("array repeat with unknown length %r" % (rv["n"],))
+            return ("array", [_copyval(x) for _ in range(n)])
         if k == "discr":
-            return ("discr", self.read(env, rv["place"]))
+            return ("discr", self.read(body, env, rv["place"]))
         return ("opaque", k)
 
     def _bin(self, op, l, r):
@@ -245,18 +340,21 @@ class Interp:
         if op in ("BitAnd", "BitOr", "BitXor"):
             f = {"BitAnd": band, "BitOr": bor, "BitXor": bxor}[op]
             return BV([f(a, b) for a, b in zip(l.bits, r.bits)], l.ty)
+        if op in ("Add", "Sub", "Mul") and l.is_const() and r.is_const():
+            a, b = l.value(), r.value()
+            v = {"Add": a + b, "Sub": a - b, "Mul": a * b}[op]
+            return BV.const(v & ((1 << WIDTH[l.ty]) - 1), l.ty)
         if op in ("Eq", "Ne"):
+            if l.is_const() and r.is_const():
+                return BV.const(1 if (l.value() == r.value()) == (op == "Eq") else 0, "bool")
             for x, y in ((l, r), (r, l)):
                 if y.is_const() and y.value() == 0:
                     return ("iszero", x, op == "Ne")
-            if l.is_const() and r.is_const():
-                return BV.const(1 if (l.value() == r.value()) == (op == "Eq") else 0, "bool")
         if op in ("Lt", "Le", "Gt", "Ge"):
             if l.is_const() and r.is_const() and l.ty not in SIGNED:
                 a, b = l.value(), r.value()
                 res = {"Lt": a < b, "Le": a <= b, "Gt": a > b, "Ge": a >= b}[op]
                 return BV.const(1 if res else 0, "bool")
-            # x < 2^k  <=>  x >> k == 0 (unsigned)
             if l.ty not in SIGNED:
                 x, c, o = None, None, op
                 if r.is_const():
@@ -265,7 +363,6 @@ class Interp:
                     x, c = r, l.value()
                     o = {"Lt": "Gt", "Le": "Ge", "Gt": "Lt", "Ge": "Le"}[op]
                 if x is not None:
-                    # normalise to x < bound / x >= bound
                     if o == "Le":
                         o, c = "Lt", c + 1
                     elif o == "Gt":
@@ -273,97 +370,162 @@ class Interp:
                     k = pow2_split(c, len(x.bits))
                     if k is not None:
                         return ("iszero", shr(x, k), o == "Ge")
-                    if not x.is_const():
-                        raise Unsupported("comparison of a wire value with %d (0x%x): not a power-of-two group boundary, so it "
-                                          "cannot delimit a 7-bit varint width class" % (c, c))
+                    raise Unsupported("comparison of a wire value with %d (0x%x): not a power-of-two group boundary, so it "
+                                      "cannot delimit a 7-bit varint width class" % (c, c))
         return ("opaque", op)
 
     # --------------------------------------------------------------------------------------------
-    def _explore(self, bb, env, atoms, out, nread, sub, steps):
-        blocks = self.b.blocks
+    def _slice_of(self, env, x):
+        """list of items of an array / slice value reached through references"""
+        v = x
+        for _ in range(4):
+            if isinstance(v, tuple) and v[0] == "ref":
+                v = self._deref(env, v)
+            else:
+                break
+        if isinstance(v, tuple) and v[0] in ("array", "slice"):
+            return v[-1]
+        return None
+
+    def _explore(self, body, bb, env, st, depth):
+        """returns list of (return value, state)"""
+        blocks = body.blocks
         while True:
-            steps += 1
-            if steps > 2000:
-                raise Unsupported("path too long (loop?) in %s" % self.b.key)
+            st.steps += 1
+            if st.steps > 4000:
+                raise Unsupported("path too long (unbounded loop?) in %s" % body.key)
             blk = blocks[bb]
-            for st in blk["stmts"]:
-                if st["k"] != "assign":
+            for s_ in blk["stmts"]:
+                if s_["k"] != "assign":
                     continue
-                pl = st["place"]
-                val = self.rvalue(env, st["rv"], sub)
+                val = self.rvalue(body, env, s_["rv"], st)
                 if isinstance(val, BV):
-                    val = val.subst(sub)
-                if pl["proj"]:
-                    continue
-                env[pl["local"]] = val
+                    val = val.subst(st.sub)
+                self.write(body, env, s_["place"], val)
             t = blk["term"]
             k = t["k"]
             if k in ("goto", "drop", "assert"):
                 bb = t["t"]
                 continue
             if k == "return":
-                self.results.append(Result(list(atoms), list(out), env.get(0), nread, dict(sub)))
-                return
+                return [(env.get(0), st)]
             if k == "call":
                 info = mir.callee_info(t["callee"])
                 name = info["base_key"]
-                args = [self.operand(env, a) for a in t["args"]]
-                dest = t["dest"]["local"]
+                args = [self.operand(body, env, a) for a in t["args"]]
+                dest = t["dest"]
+                res = None
                 if name == "BinaryOutput::write_u8":
                     if not isinstance(args[1], BV):
                         raise Unsupported("write_u8 of non-bitvector %r" % (args[1],))
-                    out.append(args[1])
-                    env[dest] = ("unit",)
+                    st.out.append(args[1])
+                    res = ("unit",)
                 elif name == "BinaryOutput::write_bytes":
-                    arr = args[1]
-                    while isinstance(arr, tuple) and arr[0] == "ref":
-                        arr = env.get(arr[1]) if isinstance(arr[1], int) else arr[1]
-                    if not (isinstance(arr, tuple) and arr[0] == "array" and all(isinstance(x, BV) for x in arr[1])):
-                        raise Unsupported("write_bytes of something that is not a literal byte array: %r" % (arr,))
-                    out.extend(arr[1])
-                    env[dest] = ("unit",)
-                elif name in ("BinaryOutput::write_var_u32",):
-                    out.append(("subcall", "write_var_u32", args[1]))
-                    env[dest] = ("unit",)
+                    items = self._slice_of(env, args[1])
+                    if items is None or not all(isinstance(x, BV) for x in items):
+                        raise Unsupported("write_bytes of something that is not a literal byte array")
+                    st.out.extend(items)
+                    res = ("unit",)
+                elif name == "BinaryOutput::write_var_u32":
+                    st.out.append(("subcall", "write_var_u32", args[1]))
+                    res = ("unit",)
                 elif name == "BinaryInput::read_u8":
                     if self.reader_bytes is not None:
-                        if nread >= len(self.reader_bytes):
-                            # the writer produced fewer bytes than the reader wants: mismatch, reported by the caller
-                            self.results.append(Result(list(atoms), list(out), ("underrun",), nread + 1, dict(sub)))
-                            return
-                        byte = self.reader_bytes[nread]
+                        if st.nread >= len(self.reader_bytes):
+                            st.nread += 1
+                            return [(("underrun",), st)]
+                        byte = self.reader_bytes[st.nread]
                     else:
-                        byte = BV.var("b%d_" % nread, "u8")
-                    nread += 1
-                    env[dest] = ("variant", "Ok", [byte])
+                        byte = BV.var("b%d_" % st.nread, "u8")
+                    st.nread += 1
+                    res = ("variant", "Ok", [byte])
                 elif name == "BinaryInput::read_var_u32":
-                    env[dest] = ("variant", "Ok", [self.args.get("$r", BV.var("r", "u32"))])
-                elif name == "IntoIterator::into_iter" and isinstance(args[0], tuple) and args[0][0] == "array":
-                    # a loop over a literal array: executed concretely (the path bound keeps it finite)
-                    env[dest] = ("iter", list(args[0][1]), 0)
-                elif name == "IntoIterator::into_iter" and isinstance(args[0], tuple) and args[0][0] == "iter":
-                    env[dest] = args[0]
+                    res = ("variant", "Ok", [self.args.get("$r", BV.var("r", "u32"))])
+                elif info["key"].endswith("Try>::branch"):
+                    a = args[0]
+                    if not (isinstance(a, tuple) and a[0] == "variant"):
+                        raise Unsupported("Try::branch on %r" % (a,))
+                    res = ("variant", "Continue" if a[1] in ("Ok", "Some") else "Break", a[2])
+                elif name == "IntoIterator::into_iter":
+                    items = self._slice_of(env, args[0]) if not (isinstance(args[0], tuple) and args[0][0] in ("iter", "range")) else None
+                    if isinstance(args[0], tuple) and args[0][0] in ("iter", "range"):
+                        res = args[0]
+                    elif isinstance(args[0], tuple) and args[0][0] == "variant" and args[0][1] in ("Range", "RangeInclusive"):
+                        lo, hi = args[0][2][0], args[0][2][1]
+                        if not (isinstance(lo, BV) and isinstance(hi, BV) and lo.is_const() and hi.is_const()):
+                            raise Unsupported("loop over a non-constant range")
+                        end = hi.value() + (1 if args[0][1] == "RangeInclusive" else 0)
+                        res = ("iter", [BV.const(i, lo.ty) for i in range(lo.value(), end)], 0)
+                    elif items is not None:
+                        res = ("iter", list(items), 0)
+                    else:
+                        raise Unsupported("loop over %r" % (args[0],))
+                elif name in ("RangeInclusive<Idx>::new",) or info["key"].startswith("RangeInclusive<Idx>::new"):
+                    res = ("variant", "RangeInclusive", [args[0], args[1]])
                 elif name == "Iterator::next" and isinstance(args[0], tuple) and args[0][0] == "ref" and \
                         isinstance(args[0][1], int) and isinstance(env.get(args[0][1]), tuple) and env[args[0][1]][0] == "iter":
                     _, items, idx = env[args[0][1]]
                     if idx < len(items):
                         env[args[0][1]] = ("iter", items, idx + 1)
-                        env[dest] = ("variant", "Some", [items[idx]])
+                        res = ("variant", "Some", [items[idx]])
                     else:
-                        env[dest] = ("variant", "None", [])
-                elif info["key"].endswith("Try>::branch"):
-                    a = args[0]
-                    if not (isinstance(a, tuple) and a[0] == "variant"):
-                        raise Unsupported("Try::branch on %r" % (a,))
-                    env[dest] = ("variant", "Continue" if a[1] == "Ok" else "Break", a[2])
+                        res = ("variant", "None", [])
+                elif "Index" in info["key"] and len(args) == 2:
+                    items = self._slice_of(env, args[0])
+                    r = args[1]
+                    if items is None:
+                        raise Unsupported("indexing of %r" % (args[0],))
+                    if isinstance(r, BV) and r.is_const():
+                        res = ("ref", items[r.value()])
+                    elif isinstance(r, tuple) and r[0] == "variant" and r[1].startswith("Range"):
+                        def c(x):
+                            if not (isinstance(x, BV) and x.is_const()):
+                                raise Unsupported("slice bound is not a constant")
+                            return x.value()
+                        fs = r[2]
+                        lo, hi = 0, len(items)
+                        if r[1] == "RangeTo":
+                            hi = c(fs[0])
+                        elif r[1] == "RangeToInclusive":
+                            hi = c(fs[0]) + 1
+                        elif r[1] == "RangeFrom":
+                            lo = c(fs[0])
+                        elif r[1] == "Range":
+                            lo, hi = c(fs[0]), c(fs[1])
+                        elif r[1] == "RangeInclusive":
+                            lo, hi = c(fs[0]), c(fs[1]) + 1
+                        if hi > len(items) or lo > hi:
+                            raise Unsupported("slice bounds out of range")
+                        res = ("ref", ("slice", items[lo:hi]))
+                    else:
+                        raise Unsupported("indexing with %r" % (r,))
+                elif name in ("From::from", "Into::into") and len(args) == 1 and isinstance(args[0], BV):
+                    to = t["dest"]["ty"].get("n")
+                    if to in WIDTH and WIDTH[to] >= len(args[0].bits) and args[0].ty not in SIGNED:
+                        res = cast(args[0], to)
+                    else:
+                        raise Unsupported("conversion %s" % info["key"])
+                elif info["key"] in ("i32::wrapping_neg", "u32::wrapping_neg", "i8::wrapping_neg") and isinstance(args[0], BV):
+                    res = neg(args[0])
+                elif self.crate is not None and info["def"] in self.crate.bodies and depth < 3 and not info["trait"]:
+                    callee = self.crate.bodies[info["def"]]
+                    cenv = {i + 1: _copyval(a) for i, a in enumerate(args)}
+                    outs = []
+                    for ret, st2 in self._explore(callee, 0, cenv, st, depth + 1):
+                        e2 = _copyenv(env)
+                        self.write(body, e2, dest, ret)
+                        if t["t"] is not None:
+                            outs.extend(self._explore(body, t["t"], e2, st2, depth))
+                    return outs
                 else:
                     raise Unsupported("call of %s inside a varint routine" % info["key"])
+                self.write(body, env, dest, res)
                 if t["t"] is None:
-                    return
+                    return []
                 bb = t["t"]
                 continue
             if k == "switch":
-                op = self.operand(env, t["op"])
+                op = self.operand(body, env, t["op"])
                 tmap = dict((int(a), b2) for a, b2 in t["targets"])
                 if isinstance(op, tuple) and op[0] == "discr":
                     v = op[1]
@@ -373,38 +535,53 @@ class Interp:
                         raise Unsupported("switch on discriminant of %r" % (v,))
                     bb = tmap.get(idx, t["otherwise"])
                     continue
-                if isinstance(op, BV) and op.ty == "bool" and op.is_const():
+                if isinstance(op, BV) and op.is_const():
                     bb = tmap.get(op.value(), t["otherwise"])
                     continue
                 if isinstance(op, tuple) and op[0] == "iszero":
                     _, vec, negate = op
-                    vec = vec.subst(sub)
+                    vec = vec.subst(st.sub)
                     if vec.has_top():
                         raise Unsupported("branch on a value outside the bit domain")
+                    outs = []
                     for truth in (True, False):
                         boolval = truth ^ negate
                         tgt = tmap.get(1 if boolval else 0, t["otherwise"])
                         nz = [b for b in vec.bits if b != ZERO]
                         if not nz:
-                            if not truth:
-                                continue       # vector is identically zero: only the true edge is feasible
-                            self._explore(tgt, dict(env), atoms + [(vec, True)], list(out), nread, dict(sub), steps)
+                            if truth:
+                                s2 = st.fork()
+                                s2.atoms.append((vec, True))
+                                outs.extend(self._explore(body, tgt, _copyenv(env), s2, depth))
                             continue
-                        if any(b[1] == frozenset() and b[0] == 1 for b in nz) and truth:
-                            continue           # a bit is the constant 1: cannot be all zero
-                        s2 = dict(sub)
+                        if truth and any(b[1] == frozenset() and b[0] == 1 for b in nz):
+                            continue
+                        s2 = st.fork()
                         if truth:
                             for b in nz:
                                 if len(b[1]) != 1:
                                     raise Unsupported("cannot substitute a non-singleton bit %r" % (b,))
                                 (v,) = tuple(b[1])
-                                s2[v] = b[0]          # v xor c == 0  ->  v = c
+                                s2.sub[v] = b[0]
                         elif len(nz) == 1 and len(nz[0][1]) == 1:
                             (v,) = tuple(nz[0][1])
-                            s2[v] = nz[0][0] ^ 1      # single bit not zero -> bit is one
-                        e2 = {kk: (vv.subst(s2) if isinstance(vv, BV) else vv) for kk, vv in env.items()}
-                        o2 = [(x.subst(s2) if isinstance(x, BV) else x) for x in out]
-                        self._explore(tgt, e2, atoms + [(vec, truth)], o2, nread, s2, steps)
-                    return
+                            s2.sub[v] = nz[0][0] ^ 1
+                        # a path on which an earlier `not all zero` vector has become identically zero is infeasible
+                        if any((not tr) and all(b == ZERO for b in v0.subst(s2.sub).bits) for v0, tr in s2.atoms):
+                            continue
+                        s2.atoms.append((vec, truth))
+                        e2 = {kk: self._subst_val(vv, s2.sub) for kk, vv in _copyenv(env).items()}
+                        s2.out = [(x.subst(s2.sub) if isinstance(x, BV) else x) for x in s2.out]
+                        outs.extend(self._explore(body, tgt, e2, s2, depth))
+                    return outs
                 raise Unsupported("switch on %r" % (op,))
             raise Unsupported("terminator " + k)
+
+    def _subst_val(self, v, sub):
+        if isinstance(v, BV):
+            return v.subst(sub)
+        if isinstance(v, list):
+            return [self._subst_val(x, sub) for x in v]
+        if isinstance(v, tuple) and v and v[0] in ("array", "tuple", "variant", "slice", "iter") and len(v) >= 2:
+            return tuple(self._subst_val(x, sub) if isinstance(x, (list, BV)) else x for x in v)
+        return v
